@@ -237,6 +237,7 @@ func checkC20(ctx *Ctx) {
 		}
 	}
 	replayBash(ctx, cli, root)
+	replayBashFanIn(ctx, cli, root)
 }
 
 func stripIDs(ids []string) []string {
@@ -328,6 +329,47 @@ func replayBash(ctx *Ctx, cli, root string) {
 		if string(want) != string(got) || len(want) == 0 {
 			ctx.Res.Violate(Violation{What: fmt.Sprintf("replayed %s differs: %q vs %q", final, got, want), Class: "c20.replay-differs", Witness: ch})
 		}
+	}
+}
+
+// a task whose command reads two input files (fan-in): every input path of the command must be rewritten
+func replayBashFanIn(ctx *Ctx, cli, root string) {
+	dir := filepath.Join(root, "replayfan")
+	os.MkdirAll(dir, 0755)
+	src := map[string]string{"a.txt": "alpha\n", "b.txt": "beta\n"}
+	for p, c := range src {
+		ioutil.WriteFile(filepath.Join(dir, p), []byte(c), 0644)
+	}
+	d := &Desc{Name: "fan", Max: 2, Nodes: []Node{
+		{Name: "sa", Kind: "filesource", Paths: []string{"a.txt"}}, {Name: "sb", Kind: "filesource", Paths: []string{"b.txt"}},
+		{Name: "up", Kind: "proc", Cmd: "cat {i:in} > {o:out} && echo up >> {o:out}", Outs: map[string]string{"out": "{i:in}.up.txt"}},
+		{Name: "merge", Kind: "proc", Cmd: "cat {i:x} {i:y} {i:x} > {o:out}", Outs: map[string]string{"out": "merged.txt"}}},
+		Edges: []Edge{{From: "sa.out", To: "up.in"}, {From: "up.out", To: "merge.x"}, {From: "sb.out", To: "merge.y"}}}
+	rr := RunWorkflow(d, RunOpts{Dir: dir})
+	ctx.Res.Eval("replay-fanin", true, "replay of a workflow with a two-input task")
+	ctx.Res.Count("bash-replay")
+	if rr.Exit != 0 {
+		ctx.Res.Disagree(Violation{What: "fan-in replay workflow failed: " + tail(rr.Stderr), Witness: "fan-in"})
+		return
+	}
+	if out, err := runCLI(cli, dir, "audit2bash", "merged.txt.audit.json"); err != nil {
+		ctx.Res.Violate(Violation{What: "audit2bash failed: " + tail(out), Class: "c20.cli-failed", Witness: "fan-in"})
+		return
+	}
+	fresh := filepath.Join(root, "freshfan")
+	os.MkdirAll(fresh, 0755)
+	for p, c := range src {
+		ioutil.WriteFile(filepath.Join(fresh, p), []byte(c), 0644)
+	}
+	script, _ := ioutil.ReadFile(filepath.Join(dir, "merged.txt.audit.sh"))
+	ioutil.WriteFile(filepath.Join(fresh, "replay.sh"), script, 0755)
+	c := exec.Command("bash", "replay.sh")
+	c.Dir = fresh
+	out, err := c.CombinedOutput()
+	want, _ := ioutil.ReadFile(filepath.Join(dir, "merged.txt"))
+	got, _ := ioutil.ReadFile(filepath.Join(fresh, "merged.txt"))
+	if err != nil || string(want) != string(got) || len(want) == 0 {
+		ctx.Res.Violate(Violation{What: fmt.Sprintf("the Bash script generated for a two-input task does not re-create merged.txt: got %q, want %q (script output: %s)", got, want, tail(string(out))), Class: "c20.replay-differs", Witness: "fan-in: cat {i:x} {i:y} {i:x} > {o:out}"})
 	}
 }
 
